@@ -3,6 +3,7 @@ import GrmVerif.Model.Recover
 import GrmVerif.Model.RecLive
 import GrmVerif.Model.RankImpl
 import GrmVerif.Lemmas.RecEdited
+import GrmVerif.Lemmas.KeptCert
 import GrmVerif.Model.SearchImpl
 import GrmVerif.Drive.C08
 import GrmVerif.Drive.C01
@@ -11,7 +12,9 @@ Driver for C05, C06, C07 (error recovery). Request:
 `<grammar> <automaton> ntoks×cost ntoks×avoid stride toklen cap which ninputs` then per input
 `len tok… kind` and, when `kind = 1`, `hasValue [tree] nerr (laidx state nseq (len (op arg)…)…)…`
 (`op` 0 insert t / 1 delete idx / 2 shift idx; trees as in C08). `which` selects the verdicts:
-5 = C05 (every sequence repairs; the parse is the plain parse of the edited input),
+5 = C05 (every sequence repairs; the parse is the plain parse of the edited input; per table the decidable
+    hypotheses of the certified whole-run theorems, `C05.wholeRunCert`, are evaluated and counted:
+    `C tables_within_the_hypotheses_of_the_whole_run_theorems` / `…_outside_…`),
 6 = C06 (the reported set is the reference minimum-cost set, ranked as documented; the reported list
     is a fixed point of the model of `simplify_repairs`, `RankImpl.simplify`; and the FULL model of
     `CPCTPlus::recover` — `SearchImpl.recoverImpl`: Dijkstra buckets with node merging, `collect_repairs`,
@@ -459,7 +462,19 @@ def handle (args : List Nat) : String :=
           let eofc := if which != 5 then [] else
             if GrmVerif.C05.eofOk G A then ["C tables_within_the_end_of_input_discipline 1"]
             else ["C tables_OUTSIDE_the_end_of_input_discipline 1"]
-          let cnts := vs.filter (fun l => l.startsWith "C ") ++ eofc
+          -- the decidable hypotheses of the certified whole-run theorems (`C05.wholeRunCert`: `Cert.check`,
+          -- `Cert.checkLA`, `Cert.vpClosed`, `colsOk`), evaluated on the dumped table; a table with
+          -- conflicts or precedence-resolved cells cannot pass L4 and is counted without evaluating
+          let certc := if which != 5 then [] else
+            if !A.sr.isEmpty || !A.rr.isEmpty || C01.precResolved G A then
+              ["C tables_outside_the_hypotheses_of_the_whole_run_theorems 1",
+               "C tables_outside_because_of_conflicts_or_precedence 1"]
+            else if GrmVerif.C05.wholeRunCert G A then
+              ["C tables_within_the_hypotheses_of_the_whole_run_theorems 1"]
+            else
+              ["C tables_outside_the_hypotheses_of_the_whole_run_theorems 1",
+               "C tables_conflict_free_but_a_certificate_fails 1"]
+          let cnts := vs.filter (fun l => l.startsWith "C ") ++ eofc ++ certc
           let ms := vs.filter (fun l => l.startsWith "Mr ")
           "\n".intercalate ((if fails.isEmpty then ["V ok"] else fails) ++ ms ++ cnts ++ liveCnt)
       | _ => "bad-request"
